@@ -63,8 +63,15 @@ def run_determinism(chk, props, cases):
             ref = None
             runs = 0
             # the same single shard, fresh processes, different GOMAXPROCS
-            for rep, gmp in enumerate([1, 4, 16, 16]):
-                res = worker(chk, binp, root, prop, 1, 0, 1, n, gmp, os.path.join(d, "%s-a%d.json" % (prop, rep)))
+            # (VERIF_DET_PROCS=30 for the large sample: a two-run diff misses a 1-in-8 divergence most of the time)
+            nproc = int(os.environ.get("VERIF_DET_PROCS", "4"))
+            gmps = ([1, 4, 16, 16] * ((nproc + 3) // 4))[:nproc]
+            from concurrent.futures import ThreadPoolExecutor
+            with ThreadPoolExecutor(max_workers=6) as ex:
+                futs = [ex.submit(worker, chk, binp, root, prop, 1, 0, 1, n, gmp, os.path.join(d, "%s-a%d.json" % (prop, rep)))
+                        for rep, gmp in enumerate(gmps)]
+                outs = [f.result() for f in futs]
+            for gmp, res in zip(gmps, outs):
                 runs += 1
                 if res is None:
                     print("determinism: %s: worker failed" % prop)
